@@ -230,3 +230,33 @@ package locate
 //@   trusted
 //@   modifies nothing
 //@   ensures result1 == nil ==> result0 == "" || startKey < result0
+
+// BatchLocateKeyRanges, cache phase: a region is taken from the cache for a range only if it contains the range's current
+// cursor (so the cached regions collected for one range form a gap-free chain from its start); what cannot be served from
+// the cache is queued from exactly that cursor.
+//@ spec func mergerOK(m *batchLocateRangesMerger) bool { return m != nil && validRegions(m.cachedRegions) && 0 <= m.cachedIdx && m.cachedIdx <= len(m.cachedRegions) && (m.lastEndKey != nil ==> *m.lastEndKey != "") }
+
+//@ func newBatchLocateRegionMerger
+//@   prop C09
+//@   bytes: key
+//@   ensures result != nil && fresh(result) && result.cachedRegions == cachedRegions && result.cachedIdx == 0 && result.lastEndKey == nil && len(result.mergedLocations) == 0
+
+// scanRegionsFromCache filters the cache scan in place; what remains are regions of the scan (present, with meta).
+// (frame: the in-place filter writes only the array freshly built by the cache scan, no location that existed before)
+//@ func (c *RegionCache) scanRegionsFromCache
+//@   prop C09
+//@   bytes: key
+//@   modifies nothing
+//@   loop 1 invariant filtered: 0 <= i && i <= rangeindex + 1 && -1 <= rangeindex && rangeindex < len(regions) && validRegions(regions)
+//@   ensures valid: validRegions(result)
+
+//@ func (c *RegionCache) BatchLocateKeyRanges
+//@   prop C09
+//@   bytes: key
+//@   loop 1 invariant last: (lastRegion != nil ==> lastRegion.meta != nil) && validRegions(cachedRegions)
+//@   loop 2 invariant last: (lastRegion != nil ==> lastRegion.meta != nil) && r != nil && r.meta != nil && validRegions(cachedRegions)
+//@   loop 3 invariant last: (lastRegion != nil ==> lastRegion.meta != nil) && validRegions(batchRegionInCache) && -1 <= rangeindex && rangeindex < len(batchRegionInCache) && validRegions(cachedRegions)
+//@   loop 4 invariant merger: mergerOK(merger)
+//@   loop 5 invariant merger: mergerOK(merger) && validRegions(regions) && -1 <= rangeindex && rangeindex < len(regions)
+//@   at call(append:cachedRegions) assert holdscursor: arg1[0] != nil && arg1[0].meta != nil && inRange(arg1[0].meta.StartKey, arg1[0].meta.EndKey, keyRange.StartKey)
+//@   at call(append:uncachedRanges) assert fromcursor: arg1[0].StartKey == keyRange.StartKey && arg1[0].EndKey == keyRange.EndKey
